@@ -10,6 +10,7 @@ package props
 
 import (
 	"fmt"
+	"os"
 	"strings"
 
 	"compiler/internal/mir"
@@ -297,6 +298,9 @@ func c18Check(env *core.Env, ci any) (res core.Result) {
 		if strings.HasPrefix(r.VKey, "rejected") || strings.HasPrefix(r.VKey, "compiler_") || strings.HasPrefix(r.VKey, "qbe_assert") {
 			// acceptance and compiler crashes are C01's / C13's matter
 			r.Discard = "program not compiled (C01/C13's matter): " + r.VKey
+			if d := os.Getenv("VERIF_C18_DUMP"); d != "" {
+				os.WriteFile(fmt.Sprintf("%s.%d.fer", d, len(c.Prog.Src)), []byte(c.Prog.Src+"\n/* "+r.VKey+" */\n"), 0o644)
+			}
 			r.Violation, r.VKey = "", ""
 			return r
 		}
